@@ -242,8 +242,8 @@ Section OpsDoc.
   Qed.
   Lemma flt_fle x y : fis_nan x = false -> fis_nan y = false -> flt x y = negb (fle y x).
   Proof.
-    intros HX HY. unfold flt, fle. pose proof (bcompare_some x y HX HY). rewrite (Bcompare_swap _ _ y x).
-    destruct (Bcompare x y) as [[]|]; simpl; auto. congruence.
+    intros HX HY. unfold flt, fle. pose proof (bcompare_some x y HX HY). rewrite (Bcompare_swap _ _ x y).
+    destruct (Bcompare x y) as [[]|]; simpl; auto; congruence.
   Qed.
   Lemma ftrunc_maxint32 : ftrunc f_max_int32 = 2147483647.
   Proof. vm_compute. reflexivity. Qed.
@@ -255,8 +255,9 @@ Section OpsDoc.
     destruct (fis_nan n) eqn:EN; [reflexivity|]. simpl orb.
     destruct (flt n (fzero false)); [reflexivity|].
     rewrite flt_fle by auto. change (Z2F 2147483647) with f_max_int32.
-    destruct (fle f_max_int32 n); simpl negb; cbv iota; rewrite ?ftrunc_maxint32;
-      unfold mlen; (destruct (2147483647 <=? _); [exact I|]); simpl; rewrite repeat_bytes_doc; reflexivity.
+    destruct (fle f_max_int32 n); cbn [negb]; cbv iota; rewrite ?ftrunc_maxint32;
+      unfold mlen; (destruct (2147483647 <=? _); [exact I|]); unfold agrees; cbn [denote];
+      rewrite repeat_bytes_doc; reflexivity.
   Qed.
   Lemma s_repeat_dbl s m : s_repeat s m = s_repeat s (MFlt (dbl m)).
   Proof. reflexivity. Qed.
@@ -296,6 +297,10 @@ Section OpsDoc.
     - apply Z.rem_divide in E; auto. apply Z.mod_divide in E; auto.
     - apply Z.mod_divide in E2; auto. apply Z.rem_divide in E2; auto.
   Qed.
+  Lemma rem_m1 z : Z.rem z (-1) = 0.
+  Proof. change (-1) with (- (1)). rewrite Z.rem_opp_r by lia. apply Z.rem_1_r. Qed.
+  Lemma quot_m1 z : Z.quot z (-1) = - z.
+  Proof. change (-1) with (- (1)). rewrite Z.quot_opp_r by lia. rewrite Z.quot_1_r. reflexivity. Qed.
   Lemma quot_div_exact x y : y <> 0 -> x mod y = 0 -> Z.quot x y = x / y.
   Proof.
     intros H E. apply Z.mod_divide in E; auto. destruct E as [q ->]. rewrite Z.quot_mul, Z.div_mul; auto.
@@ -313,8 +318,7 @@ Section OpsDoc.
         try (destruct (feq _ (fzero false)); reflexivity).
       + (* int / int *)
         destruct (z0 =? 0) eqn:E0; [reflexivity|]. destruct (z0 =? -1) eqn:E1.
-        * apply Z.eqb_eq in E1. subst z0. rewrite Z.rem_opp_r, Z.rem_1_r by lia. simpl.
-          replace (Z.quot z (-1)) with (- z) by (rewrite Z.quot_opp_r, Z.quot_1_r by lia; reflexivity).
+        * apply Z.eqb_eq in E1. subst z0. rewrite rem_m1, quot_m1. cbn [Z.eqb]. unfold vnum, agrees.
           apply num_int_denote. apply negate_int_exact. apply (wf_pnum_int a z); auto.
         * destruct (Z.rem z z0 =? 0); reflexivity.
       + destruct (z0 =? 0) eqn:E0; [reflexivity|]. apply Z.eqb_neq in E0. rewrite rem_mod_zero by auto.
@@ -336,16 +340,17 @@ Section OpsDoc.
       try (destruct (fis_nan _ || fis_nan _); [reflexivity|]; destruct (float_to_int _ =? 0); reflexivity);
       try (destruct (_ =? 0); reflexivity).
     destruct (z0 =? 0) eqn:E0; [reflexivity|]. destruct (z0 =? -1) eqn:E1; [|reflexivity].
-    apply Z.eqb_eq in E1. subst. rewrite Z.rem_opp_r, Z.rem_1_r by lia. reflexivity.
+    apply Z.eqb_eq in E1. subst. rewrite rem_m1. reflexivity.
   Qed.
 
   (* ---- comparison operators and // ---- *)
   Theorem op_cmp_doc (t : Z -> bool) (t' : comparison -> bool) l r : wf l = true -> wf r = true ->
     (forall c, t (cmp_Z c) = t' c) -> agrees (op_cmp pf t l r) (s_cmp t' (denote l) (denote r)).
   Proof. intros WL WR H. unfold op_cmp, s_cmp, agrees. rewrite (compare_doc pf pf_bigint) by auto. rewrite H. reflexivity. Qed.
-  Theorem op_alt_doc l r : agrees (op_alt l r) (SVal (match denote l with MNull | MBool false => denote r | _ => denote l end)).
+  Theorem op_alt_doc l r : wf l = true ->
+    agrees (op_alt l r) (SVal (match denote l with MNull | MBool false => denote r | _ => denote l end)).
   Proof.
-    unfold op_alt. destruct l as [|[]|n| | | |]; try reflexivity.
+    intros WL. unfold op_alt. destruct l as [|[]|n| | | |]; try reflexivity; try discriminate.
     unfold agrees. rewrite denote_jnum. destruct (norm_num pf n); reflexivity.
   Qed.
 End OpsDoc.
